@@ -4,3 +4,4 @@ from . import lexid_  # noqa
 from . import v2version  # noqa
 from . import vcs  # noqa
 from . import cli  # noqa
+from . import rewrite  # noqa
